@@ -301,6 +301,38 @@ class Rig:
         self.log(e="ret", res=res, s=self.sched_of(i))
 
 
+# ---- time-scale profiles (codec only): what ONE model tick is on the scheduler clock ---------------------------------------------
+# The scenario scripts count in ticks; the abstract objects (EventLoop.tla / TimerSched.tla) are indifferent to the unit - a due
+# time is an integer and `now >= due` is the whole guard - and the traces carry integer microseconds.  Profile "s" (1 tick = 1 s,
+# the scripts as written) only ever asks for delays of whole seconds.  Profile "sub-ms" maps a tick to 0.4 ms, so that a delay of
+# 1 or 2 ticks is strictly positive but below one millisecond, 3 ticks lie just above it, and "one tick before the due time" is
+# less than a millisecond early: every threshold, rounding or slack on the millisecond scale in the code under test (a delay
+# treated as zero, a timer / wait granularity, an item gathered a little ahead of its due time) lies inside the range the scripts
+# exercise.  The property is unit-free: "never before the due time" holds for 0.4 ms exactly as for 1 s.
+SUBMS_TICK = 0.0004
+
+
+def scaled(sc: Dict[str, Any], tick: float, tag: str) -> Dict[str, Any]:
+    """the same scenario with every duration / instant of its scripts (sleep, relative delay, period, absolute due time, horizon)
+    multiplied by `tick` seconds"""
+    def t(x):
+        return round(x * tick, 9)
+
+    def op(o):
+        if o[0] == "sleep":
+            return [o[0], t(o[1])]
+        if o[0] in ("rel", "reltd", "abs", "per") and len(o) > 2:
+            return [o[0], o[1], t(o[2])]
+        return list(o)
+    out = dict(sc, name=sc["name"] + "@" + tag, tick=tick, threads=[[op(o) for o in th] for th in sc["threads"]])
+    if "pro" in sc:
+        out["pro"] = [op(o) for o in sc["pro"]]
+    if "bodies" in sc:
+        out["bodies"] = {k: [op(o) for o in v] for k, v in sc["bodies"].items()}
+    out["horizon"] = t(sc.get("horizon", 8))
+    return out
+
+
 def norm_trace(tr: List[Dict[str, Any]]) -> List[Dict[str, Any]]:
     """`reltd` (timedelta form of schedule_relative) is the abstract op `rel`"""
     out = []
@@ -407,6 +439,8 @@ def el_scenarios(tier: str) -> List[Dict[str, Any]]:
              bodies={"1": [["sleep", 2]]}, horizon=4),
         # K  equal due times: cancelling one of several items due at the same instant removes exactly that one
         dict(name="equal-due-cancel", threads=[[["rel", 1, 2], ["rel", 2, 2], ["abs", 3, 2]], [["sleep", 1], ["cancel", 2], ["cancel", 3]]], horizon=4),
+        # L  the loop is woken ONE tick before the due time of its queued head (immediate submission by another client)
+        dict(name="wake-before-due", threads=[[["rel", 1, 3]], [["sleep", 2], ["imm", 2], ["abs", 3, 4]]], horizon=6),
         # I  cancel from the other thread (prologue scheduled the item)
         dict(name="cross-cancel", pro=[["rel", 1, 2], ["imm", 2]], threads=[[["cancel", 1], ["imm", 3]], [["cancel", 2], ["reltd", 4, 2]]], horizon=5),
     ]
@@ -427,7 +461,11 @@ def el_scenarios(tier: str) -> List[Dict[str, Any]]:
     early_for = {"timed-imm-cancel", "due-order", "cancel-before-due", "busy-loop", "restart-timed", "timed-chain"}
     out += [dict(b, name=b["name"] + "+early-wait", kind="eventloop", exit=ex, early=True)
             for b in base if b["name"] in early_for for ex in ((False, True) if tier != "quick" else (b["name"] == "due-order",))]
-    return out + handover_scenarios(tier)
+    out += handover_scenarios(tier)
+    # time-scale profile "sub-ms" (1 tick = 0.4 ms): the same scripts (quick tier: the ones with timed items around a wake-up)
+    subms_for = {"timed-imm-cancel", "due-order", "wake-before-due", "busy-loop", "cancel-at-due", "backlog-merge", "handover-timed"}
+    out += [scaled(sc, SUBMS_TICK, "sub-ms") for sc in list(out) if not sc.get("early") and (tier != "quick" or sc["name"] in subms_for)]
+    return out
 
 
 def backlog_scenarios(tier: str) -> List[Dict[str, Any]]:
@@ -505,6 +543,8 @@ def timer_scenarios(tier: str) -> List[Dict[str, Any]]:
         dict(name="equal-due-cancel-last", threads=[[["rel", 1, 2], ["rel", 2, 2], ["rel", 3, 2]], [["sleep", 1], ["cancel", 3]]], horizon=4),
         dict(name="equal-due-cancel-middle", threads=[[["abs", 1, 2], ["rel", 2, 2], ["abs", 3, 2]], [["sleep", 1], ["cancel", 2]]], horizon=4),
     ]
+    # the executing side is woken ONE tick before a due time (an immediate submission from another client): not yet due
+    base += [dict(name="wake-before-due", threads=[[["rel", 1, 3]], [["sleep", 2], ["imm", 2], ["abs", 3, 4]]], horizon=6)]
     if tier != "quick":
         base += [
             dict(name="equal-due-cancel-first", threads=[[["rel", 1, 2], ["rel", 2, 2]], [["sleep", 1], ["cancel", 1], ["rel", 3, 1]]], horizon=4),
@@ -535,6 +575,9 @@ def timer_scenarios(tier: str) -> List[Dict[str, Any]]:
     early_for = {"cancel-before-due", "abs-past-future", "recursive", "zero-delay", "late-cancel", "busy"}
     early_variants = [dict(kind="eventloop", exit=False), dict(kind="eventloop", exit=True), dict(kind="newthread"), dict(kind="threadpool")]
     out += [dict(b, name=b["name"] + "+early-wait", early=True, **v) for b in base if b["name"] in early_for for v in early_variants]
+    # time-scale profile "sub-ms" (1 tick = 0.4 ms): the same scripts, for every scheduler kind (quick tier: a share of them)
+    subms_for = {"zero-delay", "abs-past-future", "cancel-before-due", "recursive", "wake-before-due", "periodic-dispose-between"}
+    out += [scaled(sc, SUBMS_TICK, "sub-ms") for sc in list(out) if not sc.get("early") and (tier != "quick" or sc["name"] in subms_for)]
     return out
 
 
